@@ -1,25 +1,660 @@
-//! C02 — not built yet (stub).
+//! C02 — queued operations survive crashes exactly once.
+//!
+//! Part A (byte level): entry lists appended with the real `Wal`; file bytes vs the model's
+//! `frameAll` (this also ties the Lean CRC-32 to `crc32fast`); `Wal::replay` /
+//! `last_pending_ops` on truncations, byte flips and garbage tails vs the model's `replay`.
+//! Part B (sessions): a real `IndexWriter` over the traced `FsStorage`; at a chosen WAL
+//! operation boundary the directory is snapshotted, the WAL is replaced by a crash content
+//! computed by the model from the recorded (durable, pending) state — dropped, kept, or torn at
+//! a byte — and the index is restarted; the new writer's queue (`verif_queue`) is compared with
+//! the model's `pendingOps ∘ replay` (correspondence) and with the record-level expectation the
+//! harness derives from the calls it made (finder).  Up to three crashes per case; at the end
+//! everything is committed and the contents are compared with the crash-free expectation.
+use crate::idx;
 use crate::proto::Driver;
 use crate::rng::Rng;
 use crate::summary::Summary;
+use crate::util::{guarded, hex, scratch};
 use crate::{Prop, Tier};
+use searchlite_core::api::types::Document;
+use searchlite_core::api::{Index, IndexWriter};
+use searchlite_core::storage::verif::{install, uninstall, FsEvent};
+use searchlite_core::storage::{FsStorage, Storage};
+use searchlite_core::wal::{Wal, WalEntry};
 use serde_json::{json, Value};
+use std::collections::BTreeMap;
+use std::path::{Path, PathBuf};
+use std::sync::{Arc, Mutex};
 
-pub struct Stub;
-pub static P: Stub = Stub;
+pub struct C02;
+pub static P: C02 = C02;
 
-impl Prop for Stub {
+// ---------------------------------------------------------------- part A
+
+fn entry_json(e: &WalEntry) -> Value {
+  match e {
+    WalEntry::AddDoc(d) => json!({"op":"add","id": d.fields.get("_id").and_then(|v| v.as_str()).unwrap_or("")}),
+    WalEntry::DeleteDocId(id) => json!({"op":"delete","id": id}),
+    WalEntry::Commit => json!({"op":"commit"}),
+  }
+}
+
+fn run_bytes(drv: &mut Driver, case: &Value, s: &mut Summary) {
+  let dir = scratch();
+  let path = dir.path().join("wal.log");
+  let storage: Arc<dyn Storage> = Arc::new(FsStorage::new(dir.path().to_path_buf()));
+  let mut recs: Vec<Value> = Vec::new();
+  {
+    let mut wal = match Wal::open(storage.clone(), &path) {
+      Ok(w) => w,
+      Err(e) => {
+        s.fail("wal.open", "Wal::open failed on an empty directory", case, json!(e.to_string()));
+        return;
+      }
+    };
+    for e in case["entries"].as_array().cloned().unwrap_or_default() {
+      match e["op"].as_str().unwrap_or("") {
+        "add" => {
+          let d = idx::doc(&json!({"_id": e["id"], "body": e["body"]}));
+          let payload = serde_json::to_vec(&d).unwrap();
+          let _ = wal.append_add_doc(&d);
+          recs.push(json!({"ty":1,"payload":hex(&payload)}));
+        }
+        "delete" => {
+          let id = e["id"].as_str().unwrap_or("");
+          let _ = wal.append_delete_doc_id(id);
+          recs.push(json!({"ty":3,"payload":hex(id.as_bytes())}));
+        }
+        _ => {
+          let _ = wal.append_commit();
+          recs.push(json!({"ty":2,"payload":""}));
+        }
+      }
+    }
+    let _ = wal.sync();
+  }
+  let bytes = std::fs::read(&path).unwrap_or_default();
+  let m = drv.call("C02", json!({"op":"frame","recs":recs}));
+  s.case(case, !recs.is_empty());
+  s.count("bytes.encode");
+  if m["bytes"].as_str() != Some(&hex(&bytes)) {
+    s.disagree("wal.frame", case, json!({"bytes": hex(&bytes)}), m.clone());
+    return;
+  }
+  // mutations of the file: truncations, flips, garbage tails
+  let muts = case["mutations"].as_array().cloned().unwrap_or_default();
+  for mu in muts {
+    let mut data = bytes.clone();
+    let kind = mu["kind"].as_str().unwrap_or("");
+    match kind {
+      "truncate" => {
+        let n = (mu["frac"].as_f64().unwrap_or(0.0) * data.len() as f64) as usize;
+        data.truncate(n.min(data.len()));
+      }
+      "flip" => {
+        if !data.is_empty() {
+          let i = ((mu["frac"].as_f64().unwrap_or(0.0) * data.len() as f64) as usize).min(data.len() - 1);
+          data[i] ^= mu["mask"].as_u64().unwrap_or(1) as u8;
+        }
+      }
+      "garbage" => {
+        for b in mu["tail"].as_array().cloned().unwrap_or_default() {
+          data.push(b.as_u64().unwrap_or(0) as u8);
+        }
+      }
+      _ => {}
+    }
+    let sub = json!({"base": case, "mutation": mu, "data": hex(&data)});
+    let p2 = dir.path().join("mut.log");
+    std::fs::write(&p2, &data).unwrap();
+    let real = guarded(|| (Wal::replay(storage.as_ref(), &p2), Wal::last_pending_ops(storage.as_ref(), &p2)));
+    s.case(&sub, true);
+    s.count(&format!("bytes.{kind}"));
+    match real {
+      Err(msg) => s.fail("wal.replay-panic", "Wal::replay panicked", &sub, json!(msg)),
+      Ok((Ok(es), Ok(ps))) => {
+        let m = drv.call("C02", json!({"op":"replay","data":hex(&data)}));
+        let ej: Vec<Value> = es.iter().map(entry_json).collect();
+        let pj: Vec<Value> = ps.iter().map(entry_json).collect();
+        if m["entries"] != json!(ej) || m["pending"] != json!(pj) {
+          s.disagree("wal.replay", &sub, json!({"entries": ej, "pending": pj}), m);
+        }
+        // finder: an untouched prefix of whole records must be recovered (truncation)
+        if kind == "truncate" && es.len() > recs.len() {
+          s.fail("wal.replay-extra", "replay returned more entries than were written", &sub, json!(ej));
+        }
+      }
+      Ok(_) => s.fail("wal.replay-error", "Wal::replay returned an error instead of the intact prefix", &sub, json!(null)),
+    }
+  }
+}
+
+// ---------------------------------------------------------------- part B
+
+#[derive(Clone, Debug, PartialEq)]
+enum RecInfo {
+  Add(String, String),
+  Delete(String),
+  Commit,
+}
+
+#[derive(Clone, Debug)]
+enum PendOp {
+  Write(RecInfo, Vec<u8>),
+  SetLen(u64),
+}
+
+#[derive(Default)]
+struct WalTrace {
+  /// records durable on disk (as of the last sync) with their byte lengths
+  durable: Vec<(RecInfo, usize)>,
+  durable_bytes: Vec<u8>,
+  pending: Vec<PendOp>,
+  /// what the current API call would append next (set by the main thread)
+  next_infos: Vec<RecInfo>,
+  boundaries: usize,
+  snap_at: Option<usize>,
+  snap_dir: PathBuf,
+  root: PathBuf,
+  snapshot: Option<Snapshot>,
+  anomalies: Vec<String>,
+}
+
+#[derive(Clone)]
+struct Snapshot {
+  durable: Vec<(RecInfo, usize)>,
+  durable_bytes: Vec<u8>,
+  pending: Vec<PendOp>,
+}
+
+fn copy_dir(from: &Path, to: &Path) {
+  let _ = std::fs::create_dir_all(to);
+  if let Ok(rd) = std::fs::read_dir(from) {
+    for e in rd.flatten() {
+      let p = e.path();
+      if p.is_file() {
+        let _ = std::fs::copy(&p, to.join(e.file_name()));
+      }
+    }
+  }
+}
+
+impl WalTrace {
+  fn on_event(&mut self, ev: &FsEvent) {
+    if !ev.after || ev.path.file_name().and_then(|n| n.to_str()) != Some("wal.log") {
+      // remember the bytes of a write on the `before` event
+      if !ev.after && ev.op == "write" && ev.path.file_name().and_then(|n| n.to_str()) == Some("wal.log") {
+        let info = if self.next_infos.is_empty() {
+          self.anomalies.push("unexpected WAL write".into());
+          RecInfo::Commit
+        } else {
+          self.next_infos.remove(0)
+        };
+        self.pending.push(PendOp::Write(info, ev.data.clone().unwrap_or_default()));
+      }
+      return;
+    }
+    match ev.op {
+      "write" => {}
+      "set_len" => self.pending.push(PendOp::SetLen(ev.len)),
+      "sync" => {
+        let (recs, bytes) = apply_pending(&self.durable, &self.durable_bytes, &self.pending, self.pending.len());
+        self.durable = recs;
+        self.durable_bytes = bytes;
+        self.pending.clear();
+      }
+      _ => return,
+    }
+    self.boundaries += 1;
+    if self.snap_at == Some(self.boundaries) && self.snapshot.is_none() {
+      copy_dir(&self.root, &self.snap_dir);
+      self.snapshot = Some(Snapshot { durable: self.durable.clone(), durable_bytes: self.durable_bytes.clone(), pending: self.pending.clone() });
+    }
+  }
+}
+
+/// record-level and byte-level effect of the first `j` pending operations
+fn apply_pending(durable: &[(RecInfo, usize)], bytes: &[u8], pending: &[PendOp], j: usize) -> (Vec<(RecInfo, usize)>, Vec<u8>) {
+  let mut recs = durable.to_vec();
+  let mut b = bytes.to_vec();
+  for op in pending.iter().take(j) {
+    match op {
+      PendOp::Write(info, data) => {
+        recs.push((info.clone(), data.len()));
+        b.extend_from_slice(data);
+      }
+      PendOp::SetLen(n) => {
+        let n = *n as usize;
+        let mut acc = 0usize;
+        let mut keep = 0usize;
+        for (_, l) in recs.iter() {
+          if acc + l <= n {
+            acc += l;
+            keep += 1;
+          } else {
+            break;
+          }
+        }
+        recs.truncate(keep);
+        b.resize(n, 0);
+      }
+    }
+  }
+  (recs, b)
+}
+
+fn pending_ops(recs: &[(RecInfo, usize)]) -> Vec<RecInfo> {
+  let mut out = Vec::new();
+  for (r, _) in recs {
+    match r {
+      RecInfo::Commit => out.clear(),
+      x => out.push(x.clone()),
+    }
+  }
+  out
+}
+
+fn info_json(r: &RecInfo) -> Value {
+  match r {
+    RecInfo::Add(id, _) => json!({"op":"add","id":id}),
+    RecInfo::Delete(id) => json!({"op":"delete","id":id}),
+    RecInfo::Commit => json!({"op":"commit"}),
+  }
+}
+
+fn apply_expected(map: &mut BTreeMap<String, String>, ops: &[RecInfo]) {
+  for o in ops {
+    match o {
+      RecInfo::Add(id, body) => {
+        map.insert(id.clone(), body.clone());
+      }
+      RecInfo::Delete(id) => {
+        map.remove(id);
+      }
+      RecInfo::Commit => {}
+    }
+  }
+}
+
+fn live_bodies(idx: &Index) -> Result<BTreeMap<String, String>, String> {
+  let l = idx::live(idx)?;
+  Ok(l.into_iter().map(|(k, v)| (k, v["body"].as_str().unwrap_or("").to_string())).collect())
+}
+
+fn pend_json(p: &[PendOp]) -> Vec<Value> {
+  p.iter()
+    .map(|o| match o {
+      PendOp::Write(_, d) => json!({"write": hex(d)}),
+      PendOp::SetLen(n) => json!({"set_len": n}),
+    })
+    .collect()
+}
+
+fn run_sessions(drv: &mut Driver, case: &Value, s: &mut Summary) {
+  let base = scratch();
+  let mut dir = base.path().join("s0");
+  std::fs::create_dir_all(&dir).unwrap();
+  // committed contents expected by the property, and the logical queue
+  let mut expected: BTreeMap<String, String> = BTreeMap::new();
+  let mut queue: Vec<RecInfo> = Vec::new();
+  let sessions = case["sessions"].as_array().cloned().unwrap_or_default();
+  let mut crashes = 0usize;
+  let mut nontrivial = false;
+  {
+    // create the index (default schema: text field `body`)
+    let o = idx::opts(&dir, false);
+    if let Err(e) = Index::open(o) {
+      s.fail("session.create", "cannot create index", case, json!(e.to_string()));
+      return;
+    }
+  }
+  for (si, sess) in sessions.iter().enumerate() {
+    let trace = Arc::new(Mutex::new(WalTrace { root: dir.clone(), snap_dir: base.path().join(format!("snap{si}")), ..Default::default() }));
+    // seed the trace with what is on disk now (all durable): the records of the file as the
+    // model's replay frames them, interpreted by the harness (payload JSON → id, body)
+    {
+      let mut t = trace.lock().unwrap();
+      let bytes = std::fs::read(dir.join("wal.log")).unwrap_or_default();
+      let m = drv.call("C02", json!({"op":"replay","data":hex(&bytes)}));
+      t.durable_bytes = bytes;
+      for r in m["recs"].as_array().cloned().unwrap_or_default() {
+        let payload = crate::util::unhex(r["payload"].as_str().unwrap_or(""));
+        let pl = payload.len();
+        let mut vl = 1;
+        let mut x = pl;
+        while x >= 128 {
+          vl += 1;
+          x >>= 7;
+        }
+        let info = match r["ty"].as_u64() {
+          Some(1) => match serde_json::from_slice::<Value>(&payload) {
+            Ok(v) => RecInfo::Add(v["fields"]["_id"].as_str().unwrap_or("").to_string(), v["fields"]["body"].as_str().unwrap_or("").to_string()),
+            Err(_) => continue,
+          },
+          Some(2) => RecInfo::Commit,
+          Some(3) => RecInfo::Delete(String::from_utf8_lossy(&payload).to_string()),
+          _ => continue,
+        };
+        t.durable.push((info, vl + 1 + pl + 4));
+      }
+    }
+    let crash = sess.get("crash").filter(|c| !c.is_null()).cloned();
+    // first pass without snapshot target to count boundaries is avoided: the target is given as a
+    // fraction and resolved against the number of boundaries of a dry run on a copy
+    let calls = sess["calls"].as_array().cloned().unwrap_or_default();
+    let target = crash.as_ref().map(|c| {
+      let dry = base.path().join(format!("dry{si}"));
+      copy_dir(&dir, &dry);
+      let t2 = Arc::new(Mutex::new(WalTrace { root: dry.clone(), snap_dir: base.path().join("unused"), ..Default::default() }));
+      let _ = run_calls(&dry, &calls, &t2, &mut BTreeMap::new(), &mut Vec::new());
+      let n = t2.lock().unwrap().boundaries;
+      let _ = std::fs::remove_dir_all(&dry);
+      if n == 0 {
+        0
+      } else {
+        1 + ((c["at"].as_f64().unwrap_or(0.0) * n as f64) as usize).min(n - 1)
+      }
+    });
+    if let Some(t) = target {
+      trace.lock().unwrap().snap_at = Some(t);
+    }
+    let res = run_calls(&dir, &calls, &trace, &mut expected, &mut queue);
+    if let Err(e) = res {
+      s.fail("session.call-failed", "a call of a fault-free session failed", case, json!({"session": si, "error": e}));
+      return;
+    }
+    let t = trace.lock().unwrap();
+    for a in t.anomalies.iter() {
+      s.notes.push(format!("trace anomaly: {a}"));
+    }
+    let Some(crash) = crash else { continue };
+    let Some(snap) = t.snapshot.clone() else {
+      s.count("session.no-wal-activity");
+      continue;
+    };
+    let snap_dir = t.snap_dir.clone();
+    drop(t);
+    crashes += 1;
+    // ---- choose the crash content
+    let choice = crash["choice"].as_str().unwrap_or("keep");
+    let npend = snap.pending.len();
+    let mut variants: Vec<(usize, Option<usize>)> = Vec::new(); // (j, tear k)
+    match choice {
+      "drop" => variants.push((0, None)),
+      "keep" => variants.push((npend, None)),
+      "partial" => variants.push((((crash["tear"].as_f64().unwrap_or(0.5) * (npend + 1) as f64) as usize).min(npend), None)),
+      _ => {
+        // torn: j = position of a pending write, every byte offset of it (all of them are
+        // restarted; the session continues from the one selected by `tear`)
+        let writes: Vec<usize> = snap.pending.iter().enumerate().filter(|(_, o)| matches!(o, PendOp::Write(..))).map(|(i, _)| i).collect();
+        if writes.is_empty() {
+          variants.push((npend, None));
+        } else {
+          let j = writes[((crash["which"].as_f64().unwrap_or(0.0) * writes.len() as f64) as usize).min(writes.len() - 1)];
+          if let PendOp::Write(_, d) = &snap.pending[j] {
+            let sel = 1 + ((crash["tear"].as_f64().unwrap_or(0.5) * (d.len().saturating_sub(1)) as f64) as usize).min(d.len().saturating_sub(2));
+            variants.push((j, Some(sel)));
+            for k in 1..d.len() {
+              if k != sel {
+                variants.push((j, Some(k)));
+              }
+            }
+          }
+        }
+      }
+    }
+    s.count(&format!("crash.{choice}"));
+    if snap.pending.is_empty() {
+      s.count("crash.nothing-unsynced");
+    } else {
+      nontrivial = true;
+    }
+    let mut next_dir: Option<PathBuf> = None;
+    for (vi, (j, k)) in variants.iter().enumerate() {
+      let m = drv.call(
+        "C02",
+        json!({"op":"crash","durable":hex(&snap.durable_bytes),"pending":pend_json(&snap.pending),"j":j,"k":k,"truncate_on_open":true}),
+      );
+      let sub = json!({"case": case, "session": si, "boundary": target, "j": j, "k": k});
+      s.case(&sub, !snap.pending.is_empty());
+      let content = crate::util::unhex(m["content"].as_str().unwrap_or(""));
+      if m["is_crash_content"] != json!(true) {
+        s.disagree("wal.crash-content", &sub, json!(null), m.clone());
+      }
+      // harness-side record-level expectation (independent of the model)
+      let (recs, bytes) = apply_pending(&snap.durable, &snap.durable_bytes, &snap.pending, *j);
+      let mut exp_bytes = bytes.clone();
+      if let (Some(k), Some(PendOp::Write(_, d))) = (k, snap.pending.get(*j)) {
+        exp_bytes.extend_from_slice(&d[..*k]);
+      }
+      if exp_bytes != content {
+        s.disagree("wal.crash-bytes", &sub, json!(hex(&exp_bytes)), json!(hex(&content)));
+      }
+      let exp_queue = pending_ops(&recs);
+      // materialise the crash image and restart
+      let cdir = base.path().join(format!("crash{si}_{vi}"));
+      copy_dir(&snap_dir, &cdir);
+      std::fs::write(cdir.join("wal.log"), &content).unwrap();
+      let mut o = idx::opts(&cdir, false);
+      o.create_if_missing = false;
+      let restarted = guarded(|| -> Result<(Vec<(bool, String)>, BTreeMap<String, String>), String> {
+        let idx = Index::open(o).map_err(|e| format!("open: {e}"))?;
+        let committed = live_bodies(&idx)?;
+        let w = idx.writer().map_err(|e| format!("writer: {e}"))?;
+        Ok((w.verif_queue(), committed))
+      });
+      let (real_queue, committed) = match restarted {
+        Ok(Ok(x)) => x,
+        Ok(Err(e)) => {
+          s.fail("restart.error", "index or writer cannot be opened after a crash that only affects the log", &sub, json!(e));
+          continue;
+        }
+        Err(p) => {
+          s.fail("restart.panic", "restart panicked", &sub, json!(p));
+          continue;
+        }
+      };
+      let real_q: Vec<Value> = real_queue.iter().map(|(a, id)| if *a { json!({"op":"add","id":id}) } else { json!({"op":"delete","id":id}) }).collect();
+      // correspondence: model's pendingOps(replay(content))
+      let mr = drv.call("C02", json!({"op":"replay","data":hex(&content)}));
+      if mr["pending"] != json!(real_q) {
+        s.disagree("wal.recovered-queue", &sub, json!(real_q), mr["pending"].clone());
+      }
+      // finder: exactly the durable-complete operations, in order
+      let exp_q: Vec<Value> = exp_queue.iter().map(info_json).collect();
+      if json!(exp_q) != json!(real_q) {
+        s.fail("recovered-queue.mismatch", "a restarted writer does not recover exactly the operations that reached durable storage", &sub, json!({"recovered": real_q, "expected": exp_q}));
+      }
+      if vi == 0 {
+        next_dir = Some(cdir.clone());
+        // continue the history from this image: contents as observed, queue as recovered
+        expected = committed;
+        queue = exp_queue.clone();
+      } else {
+        let _ = std::fs::remove_dir_all(&cdir);
+      }
+    }
+    match next_dir {
+      Some(d) => dir = d,
+      None => return,
+    }
+  }
+  // ---- final: a new writer commits whatever is queued; compare with the crash-free expectation
+  let mut o = idx::opts(&dir, false);
+  o.create_if_missing = false;
+  let fin = guarded(|| -> Result<BTreeMap<String, String>, String> {
+    let idx = Index::open(o).map_err(|e| format!("open: {e}"))?;
+    {
+      let mut w = idx.writer().map_err(|e| format!("writer: {e}"))?;
+      w.commit().map_err(|e| format!("commit: {e}"))?;
+    }
+    live_bodies(&idx)
+  });
+  let mut want = expected.clone();
+  apply_expected(&mut want, &queue);
+  let sub = json!({"case": case, "final": true});
+  s.case(&sub, nontrivial && crashes > 0);
+  s.count(&format!("crashes.{crashes}"));
+  match fin {
+    Ok(Ok(got)) => {
+      if got != want {
+        s.fail("final-contents.mismatch", "contents after committing the recovered queue differ from the crash-free run", &sub, json!({"got": got, "want": want}));
+      }
+    }
+    Ok(Err(e)) => s.fail("final.error", "final commit failed", &sub, json!(e)),
+    Err(p) => s.fail("final.panic", "final commit panicked", &sub, json!(p)),
+  }
+}
+
+/// execute the calls of one session on the real code; bookkeeping of the property-level
+/// expectation (`expected` = committed map, `queue` = logical queue in log order)
+fn run_calls(
+  dir: &Path,
+  calls: &[Value],
+  trace: &Arc<Mutex<WalTrace>>,
+  expected: &mut BTreeMap<String, String>,
+  queue: &mut Vec<RecInfo>,
+) -> Result<(), String> {
+  let root = dir.to_path_buf();
+  let tr = trace.clone();
+  install(root.clone(), Arc::new(move |ev: &FsEvent| {
+    tr.lock().unwrap().on_event(ev);
+    Ok(())
+  }));
+  let result = guarded(|| -> Result<(), String> {
+    let mut o = idx::opts(dir, false);
+    o.create_if_missing = false;
+    let idx = Index::open(o).map_err(|e| format!("open: {e}"))?;
+    let mut w: Option<IndexWriter> = None;
+    for c in calls {
+      let op = c["op"].as_str().unwrap_or("");
+      if w.is_none() && op != "drop" {
+        w = Some(idx.writer().map_err(|e| format!("writer: {e}"))?);
+      }
+      match op {
+        "add" => {
+          let id = c["id"].as_str().unwrap_or("").to_string();
+          let body = c["body"].as_str().unwrap_or("").to_string();
+          trace.lock().unwrap().next_infos = vec![RecInfo::Add(id.clone(), body.clone())];
+          let d: Document = idx::doc(&json!({"_id": id, "body": body}));
+          w.as_mut().unwrap().add_document(&d).map_err(|e| format!("add: {e}"))?;
+          queue.push(RecInfo::Add(id, body));
+        }
+        "delete" => {
+          let id = c["id"].as_str().unwrap_or("").to_string();
+          trace.lock().unwrap().next_infos = vec![RecInfo::Delete(id.clone())];
+          w.as_mut().unwrap().delete_document(&id).map_err(|e| format!("delete: {e}"))?;
+          queue.push(RecInfo::Delete(id));
+        }
+        "commit" => {
+          trace.lock().unwrap().next_infos = vec![RecInfo::Commit];
+          w.as_mut().unwrap().commit().map_err(|e| format!("commit: {e}"))?;
+          apply_expected(expected, queue);
+          queue.clear();
+        }
+        "rollback" => {
+          w.as_mut().unwrap().rollback().map_err(|e| format!("rollback: {e}"))?;
+          queue.clear();
+        }
+        "drop" => {
+          w = None;
+        }
+        _ => {}
+      }
+    }
+    drop(w);
+    Ok(())
+  });
+  uninstall(&root);
+  match result {
+    Ok(r) => r,
+    Err(p) => Err(format!("panic: {p}")),
+  }
+}
+
+impl Prop for C02 {
   fn id(&self) -> &'static str {
     "C02"
   }
   fn rule(&self) -> &'static str {
-    "stub"
+    "two case kinds from one seed: (bytes) a random entry list written with the real Wal plus mutations of the file (truncation, byte flip, garbage tail) — every mutated file is one evaluation, non-trivial always; (sessions) 1-4 sessions of add/delete/commit/rollback/drop calls on a real IndexWriter, each but the last ended by a crash at a chosen WAL operation boundary with the unsynced log tail dropped, kept, partially kept or torn (torn: EVERY byte offset of the torn write is restarted) — every restart is one evaluation, non-trivial when at least one log operation was unsynced at the crash point; distinct = distinct case JSON"
   }
-  fn count(&self, _tier: Tier) -> usize {
-    0
+  fn count(&self, tier: Tier) -> usize {
+    tier.pick(120, 2400)
   }
-  fn gen(&self, _rng: &mut Rng, _tier: Tier, _i: usize) -> Value {
-    json!(null)
+  fn gen(&self, rng: &mut Rng, _tier: Tier, i: usize) -> Value {
+    let ids = ["a", "b", "c", "d"];
+    if i % 3 == 0 {
+      let n = rng.below(7);
+      let entries: Vec<Value> = (0..n)
+        .map(|k| match rng.below(5) {
+          0 => json!({"op":"commit"}),
+          1 => {
+            let id = *rng.pick(&ids);
+            json!({"op":"delete","id": id})
+          }
+          _ => {
+            let id = *rng.pick(&ids);
+            let pad = "x".repeat(rng.below(150));
+            json!({"op":"add","id": id, "body": format!("v{k} {pad}")})
+          }
+        })
+        .collect();
+      let nm = 2 + rng.below(8);
+      let mutations: Vec<Value> = (0..nm)
+        .map(|_| match rng.below(3) {
+          0 => json!({"kind":"truncate","frac": rng.f64()}),
+          1 => {
+            let mask = [1u64, 0x80, 0xFF][rng.below(3)];
+            json!({"kind":"flip","frac": rng.f64(), "mask": mask})
+          }
+          _ => {
+            let tail: Vec<u64> = (0..rng.below(14)).map(|_| if rng.chance(1, 3) { 0x80 } else { rng.below(256) as u64 }).collect();
+            json!({"kind":"garbage","tail": tail})
+          }
+        })
+        .collect();
+      return json!({"kind":"bytes","entries":entries,"mutations":mutations});
+    }
+    let nsess = 2 + rng.below(3);
+    let mut version = 0;
+    let sessions: Vec<Value> = (0..nsess)
+      .map(|si| {
+        let ncalls = 1 + rng.below(7);
+        let mut calls: Vec<Value> = Vec::new();
+        for _ in 0..ncalls {
+          version += 1;
+          calls.push(match rng.below(10) {
+            0 | 1 => json!({"op":"commit"}),
+            2 => json!({"op":"rollback"}),
+            3 => json!({"op":"drop"}),
+            4 | 5 => {
+              let id = *rng.pick(&ids);
+              json!({"op":"delete","id": id})
+            }
+            _ => {
+              let id = *rng.pick(&ids);
+              json!({"op":"add","id": id, "body": format!("v{version}")})
+            }
+          });
+        }
+        if si + 1 == nsess {
+          json!({"calls": calls})
+        } else {
+          let choice = ["drop", "keep", "torn", "torn", "partial"][rng.below(5)];
+          json!({"calls": calls, "crash": {"at": rng.f64(), "choice": choice, "tear": rng.f64(), "which": rng.f64()}})
+        }
+      })
+      .collect();
+    json!({"kind":"sessions","sessions":sessions})
   }
-  fn run_case(&self, _drv: &mut Driver, _case: &Value, _s: &mut Summary) {}
+  fn run_case(&self, drv: &mut Driver, case: &Value, s: &mut Summary) {
+    // replayed sub-cases carry the whole case inside
+    let case = if case.get("case").is_some() { &case["case"] } else if case.get("base").is_some() { &case["base"] } else { case };
+    match case["kind"].as_str() {
+      Some("bytes") => run_bytes(drv, case, s),
+      Some("sessions") => run_sessions(drv, case, s),
+      _ => {}
+    }
+  }
 }
